@@ -78,13 +78,17 @@ def check_state(part, db, s, hist_desc, hist_expr):
                 part.violation("C20:%s:%s" % (what, hist_desc), {"text": text, "parsed": got, "expected": exp}, snippet.replace("q.GetUnit(), %r" % sorted(ATOMS), "q.GetUnit(), %r" % sorted(ATOMS)))
             if exp and all(e < 0 for _n, e in exp) and not text.startswith("1 / "):
                 part.violation("C20:%s-reciprocal-prefix:%s" % (what, hist_desc), {"text": text})
-    # value objects show that unit
-    r, st = repr(s), str(s)
-    if ("'%s'" % unit) not in r or not st.endswith(" [%s]" % unit):
-        part.violation("C20:scalar-repr:" + hist_desc, {"repr": r, "str": st, "unit": unit})
+    # value objects show that unit - also after having been asked for a suffix in another unit
     arr = Array(q, [1.0, 2.0])
-    if not repr(arr).endswith(", %s)" % unit) or not str(arr).endswith(" [%s]" % unit):
-        part.violation("C20:array-repr:" + hist_desc, {"repr": repr(arr), "str": str(arr), "unit": unit})
+    for when in ("", " after GetFormattedSuffix('zz/yy')"):
+        r, st = repr(s), str(s)
+        if ("'%s'" % unit) not in r or not st.endswith(" [%s]" % unit) or s.GetFormattedSuffix() != " [%s]" % unit:
+            part.violation("C20:scalar-repr:" + hist_desc + when, {"repr": r, "str": st, "unit": unit}, snippet.replace("    joined =", "    s = (%s); s.GetFormattedSuffix('zz/yy'); print(str(s)); assert str(s).endswith(' [%%s]' %% q.GetUnit())\n    joined =" % hist_expr))
+        if not repr(arr).endswith(", %s)" % unit) or not str(arr).endswith(" [%s]" % unit):
+            part.violation("C20:array-repr:" + hist_desc + when, {"repr": repr(arr), "str": str(arr), "unit": unit})
+        s.GetFormattedSuffix("zz/yy")
+        arr.GetFormattedSuffix("zz/yy")
+        Array(q, [3.0]).GetFormattedSuffix("qq")
 
 
 def _simple_task(qts):
@@ -110,6 +114,15 @@ def _simple_task(qts):
                         and s.GetUnit() == u
                         and a.GetUnit() == u
                     )
+                    if ok:
+                        # asked for another unit of the type first, an object still shows its own
+                        v = db.GetUnits(qt)[0] if db.GetUnits(qt)[0] != u else db.GetUnits(qt)[-1]
+                        try:
+                            s.GetFormatted(v)
+                            a.GetFormattedSuffix(v)
+                        except Exception:
+                            pass
+                        ok = str(s) == "1.5 [%s]" % u and str(a) == "1.5 2.5 [%s]" % u and s.GetFormatted() == "1.5 [%s]" % u and str(Scalar(2.5, u, c)) == "2.5 [%s]" % u
                     if not ok:
                         part.violation(
                             "C20:simple:%s:%s" % (u, c),
@@ -149,6 +162,20 @@ def run(ctx):
             part.add("outcomes", res.GetUnit())
 
         graph, transitions = algebra.explore(db, depth, BASIS, VALUES, on_transition=on_transition, reciprocals=True)
+        # the same exploration again in this process AFTER every simple table quantity has rendered all
+        # its strings (table symbols such as m2, m/s, 1/s coincide with derived unit strings)
+        worlds.clear_caches(db)
+        for u, info in db.unit_to_unit_info.items():
+            for c in [db.GetDefaultCategory(u)] + ([info.quantity_type] if db.IsValidCategory(info.quantity_type) else []):
+                if c:
+                    try:
+                        q0 = ObtainQuantity(u, c)
+                        q0.GetUnitName(), q0.GetUnit(), q0.GetCategory(), q0.GetQuantityType(), str(Scalar(q0, 1.0)), repr(Scalar(q0, 1.0)), str(Array(q0, [1.0]))
+                    except Exception:
+                        pass
+        part.count("simple_quantities_rendered_first", len(db.unit_to_unit_info))
+        _g2, t2 = algebra.explore(db, depth, BASIS, VALUES, on_transition=on_transition, reciprocals=True)
+        transitions += t2
         for st in graph[: len(BASIS)]:
             check_state(part, db, st.scalar, algebra.describe(st.history, BASIS, VALUES), algebra.expr(st.history, BASIS, VALUES))
         deepest = graph[-1]
@@ -162,7 +189,7 @@ def run(ctx):
     ctx.transitions = transitions + part.counters.get("simple", 0)
     ctx.traces = ctx.transitions
     ctx.rule = (
-        "BFS over products/quotients from %d atomic (category, unit) atoms and their reciprocals to depth %d, every transition's result and its reciprocal (1.0 / state) parsed back; plus every (unit, category) "
+        "BFS (twice: on a cold database and after every simple table quantity has rendered its strings) over products/quotients from %d atomic (category, unit) atoms and their reciprocals to depth %d, every transition's result and its reciprocal (1.0 / state) parsed back; plus every (unit, category) "
         "of the table as a simple quantity; non-trivial = distinct composing maps with at least two denominator factors; outcomes = distinct unit strings"
         % (len(BASIS), depth)
     )
